@@ -47,6 +47,9 @@ ALSO = {
     # round 7: byte slicing at an offset measured on another line (a panic on multi-byte indentation), as in round 6
     "C10-r7m2": ["C10", "C08"],
     "C18-r7m3": ["C18", "C08"],
+    # the printer caps the list of branching variables while the skip test still expects every variable: a panic (C08) and no
+    # Result type at all (C01 reports the cut variable list)
+    "C08-r7m3": ["C08", "C01"],
 }
 
 
